@@ -1,7 +1,997 @@
-//! drivers for DDDMP export/import (C15), see lib/README_FRAMEWORK.md
-use crate::util::Args;
+//! C15: DDDMP export / import.  Drivers
+//!
+//! * `dddmp-roundtrip`: export sets of handles under many settings (ASCII /
+//!   binary, 2.0 / 3.0, strict / relaxed, named / unnamed variables and roots,
+//!   all orders), load the header, import into the same manager and into a
+//!   fresh one;
+//! * `dddmp-mutate`: every truncation point and byte / token / line level
+//!   mutations of valid files are fed to `DumpHeader::load` + `import`.
+//!
+//! The harness calls, observes and logs.  The only interpretation it performs
+//! is lexical: a file is split into lines and blank-separated tokens (the
+//! numeric view of a token is its value when it is a plain decimal integer).
+//! Every judgement (what the header must contain, what an ASCII node list
+//! denotes, which outcome is acceptable) is made by TLC (spec/Dddmp.tla,
+//! spec/TraceDddmp.tla).
 
-pub fn run(driver: &str, _args: &Args) {
-    eprintln!("driver {driver} not implemented yet");
-    std::process::exit(2);
+use std::io::Cursor;
+
+use oxidd::bcdd::BCDDFunction;
+use oxidd::bdd::BDDFunction;
+use oxidd::zbdd::ZBDDFunction;
+use oxidd::{BooleanFunction, Function, HasLevel, Manager, ManagerRef};
+use oxidd_core::function::{ETagOfFunc, INodeOfFunc, TermOfFunc};
+use oxidd_dump::dddmp::{self, DDDMPVersion, DumpHeader, ExportSettings};
+use oxidd_dump::{AsciiDisplay, ParseTagged};
+
+use crate::drv_bool::build_all3;
+use crate::ext::BoolExt;
+use crate::kinds::{g_json, snap_json};
+use crate::session::{tt_of, Session, Slot, BIN_OPS};
+use crate::util::{catch, json, permutations, write_summary, Args, Rng, TraceOut, Value};
+
+/// numeric view of a token that is not a (small) decimal integer
+const BAD: i64 = 2_000_000_000;
+/// largest number of variables for which truth tables are logged
+const TT_MAX_VARS: u32 = 10;
+/// largest number of variables a mutated header may ask for
+const FRESH_MAX_VARS: u32 = 64;
+
+pub fn run(driver: &str, args: &Args) {
+    let kind = args.get("kind", "bdd");
+    match (driver, kind.as_str()) {
+        ("dddmp-roundtrip", "bdd") => roundtrip::<BDDFunction>(args),
+        ("dddmp-roundtrip", "bcdd") => roundtrip::<BCDDFunction>(args),
+        ("dddmp-roundtrip", "zbdd") => roundtrip::<ZBDDFunction>(args),
+        ("dddmp-mutate", "bdd") => mutate::<BDDFunction>(args),
+        ("dddmp-mutate", "bcdd") => mutate::<BCDDFunction>(args),
+        ("dddmp-mutate", "zbdd") => mutate::<ZBDDFunction>(args),
+        _ => {
+            eprintln!("unknown driver/kind {driver}/{kind}");
+            std::process::exit(2);
+        }
+    }
+}
+
+// ---------------------------------------------------------------------------
+// lexical layer
+
+fn bytes_json(b: &[u8]) -> Value {
+    json!(b.iter().map(|&x| x as u64).collect::<Vec<_>>())
+}
+fn clamp(x: u128) -> i64 {
+    if x >= 1_000_000_000 {
+        BAD
+    } else {
+        x as i64
+    }
+}
+fn lossy(t: &[u8]) -> String {
+    String::from_utf8_lossy(t)
+        .chars()
+        .map(|c| if c.is_control() { '?' } else { c })
+        .collect()
+}
+/// value of a plain decimal integer token (optional '-', digits), else BAD
+fn tok_int(t: &[u8]) -> i64 {
+    let (neg, d) = match t.split_first() {
+        Some((b'-', r)) => (true, r),
+        _ => (false, t),
+    };
+    if d.is_empty() || !d.iter().all(|c| c.is_ascii_digit()) {
+        return BAD;
+    }
+    let mut d = d;
+    while d.len() > 1 && d[0] == b'0' {
+        d = &d[1..];
+    }
+    if d.len() > 9 {
+        return BAD;
+    }
+    let v: i64 = std::str::from_utf8(d).unwrap().parse().unwrap();
+    if neg {
+        -v
+    } else {
+        v
+    }
+}
+fn is_blank(c: u8) -> bool {
+    c == b' ' || c == b'\t'
+}
+/// blank-separated tokens; a sign standing alone is joined with the number
+/// after it
+fn split_tokens(line: &[u8]) -> Vec<Vec<u8>> {
+    let raw: Vec<&[u8]> = line.split(|&c| is_blank(c)).filter(|t| !t.is_empty()).collect();
+    let mut out: Vec<Vec<u8>> = Vec::new();
+    let mut i = 0;
+    while i < raw.len() {
+        if raw[i] == b"-" && i + 1 < raw.len() && raw[i + 1].iter().all(|c| c.is_ascii_digit()) {
+            let mut t = b"-".to_vec();
+            t.extend_from_slice(raw[i + 1]);
+            out.push(t);
+            i += 2;
+        } else {
+            out.push(raw[i].to_vec());
+            i += 1;
+        }
+    }
+    out
+}
+fn strip_eol(mut line: &[u8]) -> &[u8] {
+    while let Some(b'\n' | b'\r') = line.last() {
+        line = &line[..line.len() - 1];
+    }
+    line
+}
+fn trim_blank(mut s: &[u8]) -> &[u8] {
+    while let [b' ' | b'\t', rest @ ..] = s {
+        s = rest;
+    }
+    while let [rest @ .., b' ' | b'\t'] = s {
+        s = rest;
+    }
+    s
+}
+
+/// the file as lines of tokens: `hdr` = lines before `.nodes` (key `k`, trimmed
+/// value bytes `v`, tokens as bytes `b`, as strings `s` and as numbers `i`),
+/// `mode` = value of the last `.mode` line (default "A"); ASCII: `lines` =
+/// the lines after `.nodes` (trailing blank lines removed); binary: length of
+/// the node section and whether the file ends with `.end`
+fn tokenise(bytes: &[u8]) -> Value {
+    let mut pos = 0usize;
+    let mut hdr = Vec::new();
+    let mut has_nodes = false;
+    let mut mode = "A".to_string();
+    while pos < bytes.len() {
+        let end = bytes[pos..]
+            .iter()
+            .position(|&c| c == b'\n')
+            .map(|p| pos + p + 1)
+            .unwrap_or(bytes.len());
+        let line = strip_eol(&bytes[pos..end]);
+        pos = end;
+        let (key, value) = match line.iter().position(|&c| is_blank(c)) {
+            Some(p) => (&line[..p], &line[p + 1..]),
+            None => (line, &line[line.len()..]),
+        };
+        if key == b".nodes" {
+            has_nodes = true;
+            break;
+        }
+        let value = trim_blank(value);
+        if key == b".mode" {
+            mode = lossy(value);
+        }
+        let toks = split_tokens(value);
+        hdr.push(json!({
+            "k": lossy(key),
+            "v": bytes_json(value),
+            "b": toks.iter().map(|t| bytes_json(t)).collect::<Vec<_>>(),
+            "s": toks.iter().map(|t| lossy(t)).collect::<Vec<_>>(),
+            "i": toks.iter().map(|t| tok_int(t)).collect::<Vec<_>>(),
+        }));
+    }
+    let rest = &bytes[pos..];
+    let mut file = json!({"len": bytes.len(), "hdr": hdr, "hasnodes": has_nodes, "mode": mode});
+    if mode == "B" {
+        // node section: everything before the trailing `.end` line
+        let mut t = rest;
+        while let Some(c) = t.last() {
+            if c.is_ascii_whitespace() {
+                t = &t[..t.len() - 1];
+            } else {
+                break;
+            }
+        }
+        let endok = t.ends_with(b".end");
+        file["endok"] = json!(endok);
+        file["binlen"] = json!(if endok { t.len() - 4 } else { rest.len() });
+    } else {
+        let mut lines: Vec<&[u8]> = rest.split(|&c| c == b'\n').collect();
+        while let Some(l) = lines.last() {
+            if l.iter().all(|c| c.is_ascii_whitespace()) {
+                lines.pop();
+            } else {
+                break;
+            }
+        }
+        let nl = lines.len();
+        let mut out = Vec::new();
+        for (k, l) in lines.into_iter().enumerate() {
+            let mut l = strip_eol(l);
+            if k + 1 == nl {
+                while let Some(c) = l.last() {
+                    if c.is_ascii_whitespace() {
+                        l = &l[..l.len() - 1];
+                    } else {
+                        break;
+                    }
+                }
+            }
+            let toks = split_tokens(l);
+            out.push(json!({
+                "s": toks.iter().map(|t| lossy(t)).collect::<Vec<_>>(),
+                "i": toks.iter().map(|t| tok_int(t)).collect::<Vec<_>>(),
+            }));
+        }
+        file["lines"] = json!(out);
+    }
+    file
+}
+
+fn header_json(h: &DumpHeader) -> Value {
+    let mut o = serde_json::Map::new();
+    if let Some(d) = h.diagram_name() {
+        o.insert("dd".into(), bytes_json(d.as_bytes()));
+    }
+    o.insert("nnodes".into(), json!(clamp(h.num_nodes() as u128)));
+    o.insert("nvars".into(), json!(clamp(h.num_vars() as u128)));
+    o.insert("nsupp".into(), json!(clamp(h.num_support_vars() as u128)));
+    let list = |v: &[u32]| json!(v.iter().map(|&x| clamp(x as u128)).collect::<Vec<_>>());
+    o.insert("ids".into(), list(h.support_vars()));
+    o.insert("order".into(), list(h.support_var_order()));
+    o.insert("permids".into(), list(h.support_var_to_level()));
+    if let Some(ns) = h.var_names() {
+        o.insert(
+            "names".into(),
+            json!(ns.iter().map(|s| bytes_json(s.as_bytes())).collect::<Vec<_>>()),
+        );
+    }
+    o.insert("nroots".into(), json!(clamp(h.num_roots() as u128)));
+    if let Some(ns) = h.root_names() {
+        o.insert(
+            "rnames".into(),
+            json!(ns.iter().map(|s| bytes_json(s.as_bytes())).collect::<Vec<_>>()),
+        );
+    }
+    Value::Object(o)
+}
+
+fn io_res<T>(r: &Result<std::io::Result<T>, String>) -> Value {
+    match r {
+        Ok(Ok(_)) => json!("ok"),
+        Ok(Err(e)) => json!({"err": format!("{:?}", e.kind()), "msg": e.to_string()}),
+        Err(p) => json!({ "panic": p }),
+    }
+}
+
+// ---------------------------------------------------------------------------
+// export
+
+#[derive(Clone, Debug)]
+struct Settings {
+    v3: bool,
+    ascii: bool,
+    strict: bool,
+    dd: String,
+}
+
+fn export_bytes<F: BoolExt>(
+    mref: &F::ManagerRef,
+    roots: &[&F],
+    rnames: Option<&[String]>,
+    set: &Settings,
+) -> (Vec<u8>, Result<std::io::Result<()>, String>)
+where
+    for<'id> INodeOfFunc<'id, F>: HasLevel,
+    for<'id> TermOfFunc<'id, F>: AsciiDisplay,
+{
+    let mut buf: Vec<u8> = Vec::new();
+    let r = catch(|| {
+        mref.with_manager_shared(|m| {
+            let st = ExportSettings::default()
+                .version(if set.v3 { DDDMPVersion::V3_0 } else { DDDMPVersion::V2_0 })
+                .strict(set.strict)
+                .diagram_name(&set.dd);
+            let st = if set.ascii { st.ascii() } else { st.binary() };
+            match rnames {
+                Some(ns) => st.export_with_names(
+                    &mut buf,
+                    m,
+                    roots.iter().copied().zip(ns.iter().map(|s| s.as_str())),
+                ),
+                None => st.export(&mut buf, m, roots.iter().copied()),
+            }
+        })
+    });
+    (buf, r)
+}
+
+fn settings_json(set: &Settings) -> Value {
+    json!({"ver": if set.v3 {"3.0"} else {"2.0"}, "ascii": set.ascii, "strict": set.strict,
+           "dd": bytes_json(set.dd.as_bytes())})
+}
+
+/// projection of the manager: variables, order, names, every live handle
+/// with its edge, truth table and the sub-graph of all of them
+fn emit_pre<F: BoolExt>(s: &mut Session<F>) {
+    let live = s.live();
+    let n = s.n;
+    let (l2v, _) = s.order();
+    let (names, binsup) = s.mref.with_manager_shared(|m| {
+        let names: Vec<Value> = (0..m.num_vars())
+            .map(|v| bytes_json(m.var_name(v).as_bytes()))
+            .collect();
+        (names, ExportSettings::binary_supported(m))
+    });
+    let mut hs = Vec::new();
+    for &sl in &live {
+        let f = s.get(sl);
+        let e = s.edge_of(f);
+        let tt = if n <= TT_MAX_VARS { tt_of(f, n) } else { vec![] };
+        hs.push(json!([sl, e.0, e.1, tt]));
+    }
+    let g = {
+        let fs: Vec<&F> = live.iter().map(|&sl| s.get(sl)).collect();
+        s.mref.with_manager_shared(|m| {
+            let roots: Vec<_> = fs.iter().map(|f| f.as_edge(m)).collect();
+            F::subgraph(m, &roots)
+        })
+    };
+    s.out.emit(json!({"ev":"pre","n":n,"l2v":l2v,"names":names,"binsup":binsup,
+        "hs":hs,"g":g_json(&g)}));
+}
+
+// ---------------------------------------------------------------------------
+// import into a fresh manager
+
+/// load the header of `bytes`, create a manager with the header's variables
+/// (named if the header has names), establish the support variables' order,
+/// import, observe.  Returns the fields of the event.
+fn fresh_import<F: BoolExt>(bytes: &[u8], want_tokens_when_ok: bool) -> Value
+where
+    for<'id> INodeOfFunc<'id, F>: HasLevel,
+    for<'id> TermOfFunc<'id, F>: ParseTagged<ETagOfFunc<'id, F>>,
+{
+    let mut ev = json!({});
+    let mut cur = Cursor::new(bytes);
+    let h = catch(|| DumpHeader::load(&mut cur));
+    ev["hres"] = io_res(&h);
+    let Ok(Ok(header)) = h else {
+        return ev;
+    };
+    ev["h"] = header_json(&header);
+    let nv = header.num_vars();
+    if nv > FRESH_MAX_VARS {
+        ev["res"] = json!("skipped");
+        return ev;
+    }
+    let sv: Vec<u32> = header.support_var_order().to_vec();
+    ev["sv"] = json!(sv);
+    let mref = F::new_manager(2048, 64, 1);
+    // variables
+    let named = mref.with_manager_exclusive(|m| {
+        let r = match header.var_names() {
+            Some(ns) => match catch(|| m.add_named_vars(ns.iter().cloned())) {
+                Ok(Ok(_)) => "ok",
+                Ok(Err(_)) => "dup",
+                Err(_) => "panic",
+            },
+            None => "none",
+        };
+        let have = m.num_vars();
+        if have < nv {
+            m.add_vars(nv - have);
+        }
+        r
+    });
+    ev["named"] = json!(named);
+    // the support variables must be ordered by level
+    let ro = mref.with_manager_exclusive(|m| catch(|| F::set_var_order(m, &sv)));
+    if let Err(p) = ro {
+        ev["res"] = json!({"setup_panic": p});
+        return ev;
+    }
+    let (l2v, v2l) = mref.with_manager_shared(|m| F::order(m));
+    ev["n"] = json!(nv);
+    ev["l2v"] = json!(l2v);
+    let sorted = sv.iter().all(|&v| v < nv)
+        && sv
+            .windows(2)
+            .all(|w| v2l[w[0] as usize] < v2l[w[1] as usize]);
+    if !sorted || sv.len() != header.num_support_vars() as usize {
+        // the precondition of `import` cannot be established
+        ev["res"] = json!("precond");
+        return ev;
+    }
+    let base = mref.with_manager_shared(|m| {
+        m.gc();
+        m.num_inner_nodes()
+    });
+    ev["base"] = json!(base);
+    let r = catch(|| {
+        mref.with_manager_shared(|m| {
+            dddmp::import::<F>(&mut cur, &header, m, sv.iter().copied(), F::not_edge_owned)
+        })
+    });
+    ev["res"] = io_res(&r);
+    if let Ok(Ok(roots)) = r {
+        let es: Vec<Value> = roots
+            .iter()
+            .map(|f| {
+                let e = f.with_manager_shared(|m, e| F::edge_code(m, e));
+                json!([e.0, e.1])
+            })
+            .collect();
+        ev["es"] = json!(es);
+        if nv <= TT_MAX_VARS {
+            ev["tts"] = json!(roots.iter().map(|f| tt_of(f, nv)).collect::<Vec<_>>());
+        }
+        let (g, snap, ninner) = mref.with_manager_shared(|m| {
+            let rs: Vec<_> = roots.iter().map(|f| f.as_edge(m)).collect();
+            (F::subgraph(m, &rs), F::snapshot(m), m.num_inner_nodes())
+        });
+        ev["g"] = g_json(&g);
+        ev["snap"] = snap_json(&snap);
+        ev["ninner"] = json!(ninner);
+        if want_tokens_when_ok {
+            ev["file"] = tokenise(bytes);
+        }
+        drop(roots);
+    }
+    let after = mref.with_manager_shared(|m| {
+        m.gc();
+        m.num_inner_nodes()
+    });
+    ev["after"] = json!(after);
+    ev
+}
+
+// ---------------------------------------------------------------------------
+// one round trip
+
+#[derive(Default)]
+struct Stats {
+    exports: u64,
+    nontrivial: u64,
+    accepted_mut: u64,
+    mutations: u64,
+}
+
+/// export `roots`, log the file; load the header; import into the same
+/// manager; import into a fresh manager.  Returns the exported bytes.
+fn do_roundtrip<F: BoolExt>(
+    s: &mut Session<F>,
+    roots: &[Slot],
+    rnames: Option<&[String]>,
+    set: &Settings,
+    stats: &mut Stats,
+    import_too: bool,
+) -> Vec<u8>
+where
+    for<'id> INodeOfFunc<'id, F>: HasLevel,
+    for<'id> TermOfFunc<'id, F>: AsciiDisplay + ParseTagged<ETagOfFunc<'id, F>>,
+{
+    let (bytes, r) = {
+        let fs: Vec<&F> = roots.iter().map(|&sl| s.get(sl)).collect();
+        export_bytes::<F>(&s.mref, &fs, rnames, set)
+    };
+    stats.exports += 1;
+    let mut ev = json!({"ev":"export","roots":roots,"set":settings_json(set),"res":io_res(&r),
+        "file":tokenise(&bytes)});
+    if let Some(ns) = rnames {
+        ev["rnames"] = json!(ns.iter().map(|x| bytes_json(x.as_bytes())).collect::<Vec<_>>());
+    }
+    s.out.emit(ev);
+    if r.is_err() || !import_too {
+        return bytes;
+    }
+
+    // header
+    let mut cur = Cursor::new(&bytes[..]);
+    let h = catch(|| DumpHeader::load(&mut cur));
+    let mut ev = json!({"ev":"header","res":io_res(&h)});
+    if let Ok(Ok(hd)) = &h {
+        ev["h"] = header_json(hd);
+    }
+    s.out.emit(ev);
+    let Ok(Ok(header)) = h else {
+        return bytes;
+    };
+
+    // same manager
+    let sv: Vec<u32> = header.support_var_order().to_vec();
+    let (_, v2l) = s.order();
+    let sorted = sv.iter().all(|&v| (v as usize) < v2l.len())
+        && sv
+            .windows(2)
+            .all(|w| v2l[w[0] as usize] < v2l[w[1] as usize]);
+    let mut ev = json!({"ev":"import_same","sv":sv});
+    let orig: Vec<Value> = roots
+        .iter()
+        .map(|&sl| {
+            let e = s.edge_of(s.get(sl));
+            json!([e.0, e.1])
+        })
+        .collect();
+    ev["orig"] = json!(orig);
+    let mut same_ok = false;
+    if !sorted {
+        ev["res"] = json!("precond");
+    } else {
+        let r = catch(|| {
+            s.mref.with_manager_shared(|m| {
+                dddmp::import::<F>(&mut cur, &header, m, sv.iter().copied(), F::not_edge_owned)
+            })
+        });
+        ev["res"] = io_res(&r);
+        if let Ok(Ok(imp)) = r {
+            let eq: Vec<bool> = imp
+                .iter()
+                .enumerate()
+                .map(|(i, f)| i < roots.len() && f == s.get(roots[i]))
+                .collect();
+            same_ok = eq.iter().all(|&b| b) && eq.len() == roots.len();
+            ev["eq"] = json!(eq);
+            ev["es"] = json!(imp
+                .iter()
+                .map(|f| {
+                    let e = s.edge_of(f);
+                    json!([e.0, e.1])
+                })
+                .collect::<Vec<_>>());
+        }
+    }
+    s.out.emit(ev);
+
+    // fresh manager
+    let mut ev = fresh_import::<F>(&bytes, false);
+    ev["ev"] = json!("import_fresh");
+    let fresh_ok = ev["res"] == json!("ok");
+    s.out.emit(ev);
+    if same_ok && fresh_ok && header.num_nodes() >= 2 {
+        stats.nontrivial += 1;
+    }
+    bytes
+}
+
+// ---------------------------------------------------------------------------
+// names
+
+const NAME_ATOMS: [&str; 14] = [
+    "a", "b", "x", "1", "_", " ", "\t", "\n", "\u{7f}", "\u{1}", "é", "量", ".", "-",
+];
+
+fn random_name(rng: &mut Rng, dirty: bool) -> String {
+    let len = 1 + rng.below(4);
+    let mut s = String::new();
+    for _ in 0..rng.below(3).saturating_sub(1) {
+        s.push('_');
+    }
+    for _ in 0..len {
+        let a = if dirty {
+            NAME_ATOMS[rng.below(NAME_ATOMS.len())]
+        } else {
+            ["a", "b", "x", "1", "_", "é", "量", ".", "-"][rng.below(9)]
+        };
+        s.push_str(a);
+    }
+    s
+}
+
+/// variable names by scheme; "" = unnamed; non-empty names are unique
+fn var_names(rng: &mut Rng, n: usize, scheme: usize) -> Vec<String> {
+    let mut ns: Vec<String> = match scheme % 8 {
+        0 => vec![String::new(); n],
+        1 => (0..n).map(|i| format!("x{i}")).collect(),
+        2 => (0..n).map(|_| random_name(rng, false)).collect(),
+        3 => (0..n).map(|_| random_name(rng, true)).collect(),
+        // some unnamed, generated names of other variables present
+        4 => (0..n)
+            .map(|i| match i % 3 {
+                0 => String::new(),
+                1 => format!("_x{}", i - 1),
+                _ => format!("__x{}", (i + 1) % n.max(1)),
+            })
+            .collect(),
+        // duplicates after sanitising
+        5 => (0..n)
+            .map(|i| ["a b", "a_b", "a\tb", "a\nb", "c d", "_x0_a_b", " ", "_"][i % 8].to_string())
+            .collect(),
+        6 => (0..n)
+            .map(|i| if rng.chance(1, 3) { String::new() } else { random_name(rng, i % 2 == 0) })
+            .collect(),
+        _ => (0..n)
+            .map(|i| [".nodes", ".end", "0", "-1", "T", ".ids 5"][i % 6].to_string())
+            .collect(),
+    };
+    // keep non-empty names unique
+    for i in 0..ns.len() {
+        while !ns[i].is_empty() && ns[..i].contains(&ns[i]) {
+            let c = ["'", "a", "_", "2"][rng.below(4)];
+            ns[i].push_str(c);
+        }
+    }
+    ns
+}
+
+fn set_names<F: BoolExt>(s: &mut Session<F>, names: &[String]) {
+    s.mref.with_manager_exclusive(|m| {
+        for (v, nm) in names.iter().enumerate() {
+            if !nm.is_empty() {
+                m.set_var_name(v as u32, nm.as_str())
+                    .expect("harness: unique variable names");
+            }
+        }
+    });
+}
+
+fn root_names(rng: &mut Rng, k: usize) -> Option<Vec<String>> {
+    match rng.below(5) {
+        0 => None,
+        1 => Some((0..k).map(|i| format!("f{i}")).collect()),
+        2 => Some((0..k).map(|_| random_name(rng, false)).collect()),
+        3 => Some(
+            (0..k)
+                .map(|i| ["", "_f0", "a b", "g\n", " ", "_f1", "", "h"][(i + rng.below(2)) % 8].to_string())
+                .collect(),
+        ),
+        _ => Some(
+            (0..k)
+                .map(|_| if rng.chance(1, 4) { String::new() } else { random_name(rng, true) })
+                .collect(),
+        ),
+    }
+}
+
+fn random_settings(rng: &mut Rng) -> Settings {
+    let dd = ["", "dd", "my dd", "a\nb", " lead", "x\t", "é"][rng.below(7)].to_string();
+    Settings { v3: rng.chance(1, 2), ascii: rng.chance(1, 2), strict: rng.chance(1, 2), dd }
+}
+
+// ---------------------------------------------------------------------------
+// dddmp-roundtrip
+
+fn roundtrip<F: BoolExt>(args: &Args)
+where
+    for<'id> INodeOfFunc<'id, F>: HasLevel,
+    for<'id> TermOfFunc<'id, F>: AsciiDisplay + ParseTagged<ETagOfFunc<'id, F>>,
+{
+    let dir = args.get("out", "/verif/out/tmp");
+    let thorough = args.get("tier", "quick") == "thorough";
+    let seed = args.num("seed", 1);
+    let mut rng = Rng::new(seed ^ 0x1515);
+    let name = format!("dddmp-roundtrip-{}", F::KIND);
+    let mut out = TraceOut::new(&dir, &name, args.num("chunk", 500) as usize);
+    let mut stats = Stats::default();
+
+    // part 1: subsets of the 256 three-variable functions under all 6 orders
+    let per_order = args.num("per_order", if thorough { 60 } else { 10 }) as usize;
+    for (oi, ord) in permutations(3).iter().enumerate() {
+        for rep in 0..(if thorough { 2 } else { 1 }) {
+            let mut s: Session<F> = Session::new_tagged(&mut out, 4096, 64, 1, "rt3");
+            s.add_vars(3);
+            let names = var_names(&mut rng, 3, oi + rep * 3 + seed as usize);
+            set_names(&mut s, &names);
+            let before = !F::REORDER_LIVE_OK || (oi + rep) % 2 == 0;
+            if before {
+                s.reorder(ord);
+            }
+            let Some(h) = build_all3(&mut s, oi % 2 == 1) else {
+                continue;
+            };
+            if !before {
+                s.reorder(ord);
+            }
+            if s.dead {
+                continue;
+            }
+            emit_pre(&mut s);
+            for c in 0..per_order {
+                let k = [0usize, 1, 1, 2, 3, 5, 8, 20, 60][c % 9];
+                let roots: Vec<Slot> = (0..k).map(|_| h[rng.below(256)]).collect();
+                let rn = root_names(&mut rng, k);
+                let mut set = random_settings(&mut rng);
+                // make sure that every mode/version combination occurs per order
+                set.ascii = c % 2 == 0;
+                set.v3 = (c / 2) % 2 == 0;
+                do_roundtrip(&mut s, &roots, rn.as_deref(), &set, &mut stats, true);
+            }
+        }
+    }
+
+    // part 2: random diagrams over up to 10 variables, some of them unused
+    let count = args.num("count", if thorough { 400 } else { 36 }) as usize;
+    for c in 0..count {
+        let n = if c % 17 == 16 { 0 } else { 1 + rng.below(10) } as u32;
+        let mut s: Session<F> = Session::new_tagged(&mut out, 1 << 14, 256, 1, "rtn");
+        s.add_vars(n);
+        let names = var_names(&mut rng, n as usize, rng.below(8));
+        set_names(&mut s, &names);
+        let before = !F::REORDER_LIVE_OK || rng.chance(1, 2);
+        let ord = rng.perm(n as usize);
+        if before && n > 0 {
+            s.reorder(&ord);
+        }
+        // the variables that may occur in the functions
+        let used: Vec<u32> = (0..n).filter(|_| rng.chance(2, 3)).collect();
+        s.konst(true);
+        s.konst(false);
+        for &v in &used {
+            s.var(v);
+        }
+        let ops = 4 + rng.below(if n > 7 { 30 } else { 16 });
+        for _ in 0..ops {
+            let live = s.live();
+            let a = live[rng.below(live.len())];
+            let b = live[rng.below(live.len())];
+            match rng.below(10) {
+                0 => {
+                    s.not(a);
+                }
+                1 => {
+                    let c3 = live[rng.below(live.len())];
+                    s.ite(a, b, c3);
+                }
+                _ => {
+                    s.bin(BIN_OPS[rng.below(8)], a, b);
+                }
+            }
+            if s.dead {
+                break;
+            }
+        }
+        if s.dead {
+            continue;
+        }
+        if !before && n > 0 {
+            s.reorder(&ord);
+        }
+        emit_pre(&mut s);
+        let live = s.live();
+        for _ in 0..(if thorough { 4 } else { 3 }) {
+            let k = [0usize, 1, 2, 3, 4, 6][rng.below(6)];
+            // late handles are the interesting ones
+            let roots: Vec<Slot> = (0..k)
+                .map(|_| {
+                    if rng.chance(3, 4) {
+                        live[live.len() - 1 - rng.below(live.len().min(6))]
+                    } else {
+                        live[rng.below(live.len())]
+                    }
+                })
+                .collect();
+            let rn = root_names(&mut rng, k);
+            let set = random_settings(&mut rng);
+            do_roundtrip(&mut s, &roots, rn.as_deref(), &set, &mut stats, true);
+        }
+    }
+
+    out.finish();
+    write_summary(
+        &dir,
+        &name,
+        &out,
+        json!({"rows": stats.exports, "nontrivial": stats.nontrivial}),
+    );
+}
+
+// ---------------------------------------------------------------------------
+// dddmp-mutate
+
+/// (description, mutated bytes)
+fn mutations(base: &[u8], rng: &mut Rng, thorough: bool, binary: bool) -> Vec<(Value, Vec<u8>)> {
+    let mut out: Vec<(Value, Vec<u8>)> = Vec::new();
+    let len = base.len();
+    // every truncation point
+    for at in 0..len {
+        out.push((json!({"m":"trunc","at":at}), base[..at].to_vec()));
+    }
+    // byte level
+    const INTERESTING: [u8; 22] = [
+        b'0', b'1', b'2', b'9', b'-', b' ', b'\n', b'\t', b'\r', b'A', b'B', b'T', b'F', b'E',
+        b'.', b'x', 0x00, 0x01, 0x02, 0x7f, 0x80, 0xff,
+    ];
+    let stride = if thorough { 1 } else { 3 };
+    let off = rng.below(stride);
+    for at in 0..len {
+        let dense = thorough || at % stride == off || (binary && at + 64 > len);
+        if !dense {
+            continue;
+        }
+        let mut b = base.to_vec();
+        b[at] ^= 1 << rng.below(8);
+        out.push((json!({"m":"flip","at":at}), b));
+        let mut b = base.to_vec();
+        b[at] = INTERESTING[rng.below(INTERESTING.len())];
+        out.push((json!({"m":"set","at":at,"to":b[at]}), b));
+        let mut b = base.to_vec();
+        b.remove(at);
+        out.push((json!({"m":"del","at":at}), b));
+        let mut b = base.to_vec();
+        let c = INTERESTING[rng.below(INTERESTING.len())];
+        b.insert(at, c);
+        out.push((json!({"m":"ins","at":at,"c":c}), b));
+        if base[at].is_ascii_digit() {
+            // the neighbouring numbers
+            for d in [b'0', b'1', b'2', b'3', b'4', b'5', b'6', b'7'] {
+                if d != base[at] && (thorough || rng.chance(1, 2)) {
+                    let mut b = base.to_vec();
+                    b[at] = d;
+                    out.push((json!({"m":"digit","at":at,"to":d}), b));
+                }
+            }
+            let mut b = base.to_vec();
+            b.insert(at, b'-');
+            out.push((json!({"m":"neg","at":at}), b));
+        }
+    }
+    // line level (header and, in ASCII mode, node lines)
+    let mut starts = vec![0usize];
+    for (i, &c) in base.iter().enumerate() {
+        if c == b'\n' && i + 1 < len {
+            starts.push(i + 1);
+        }
+    }
+    let line = |k: usize| -> &[u8] {
+        let a = starts[k];
+        let b = if k + 1 < starts.len() { starts[k + 1] } else { len };
+        &base[a..b]
+    };
+    for k in 0..starts.len() {
+        let a = starts[k];
+        let b = a + line(k).len();
+        let mut del = base[..a].to_vec();
+        del.extend_from_slice(&base[b..]);
+        out.push((json!({"m":"del_line","line":k}), del));
+        let mut dup = base[..b].to_vec();
+        dup.extend_from_slice(line(k));
+        dup.extend_from_slice(&base[b..]);
+        out.push((json!({"m":"dup_line","line":k}), dup));
+        if k + 1 < starts.len() {
+            let b2 = b + line(k + 1).len();
+            let mut sw = base[..a].to_vec();
+            sw.extend_from_slice(line(k + 1));
+            sw.extend_from_slice(line(k));
+            sw.extend_from_slice(&base[b2..]);
+            out.push((json!({"m":"swap_lines","line":k}), sw));
+        }
+    }
+    // a few double mutations
+    let doubles = if thorough { 400 } else { 60 };
+    for _ in 0..doubles {
+        let mut b = base.to_vec();
+        for _ in 0..2 {
+            let at = rng.below(b.len());
+            match rng.below(3) {
+                0 => b[at] = INTERESTING[rng.below(INTERESTING.len())],
+                1 => {
+                    b.remove(at);
+                }
+                _ => b.insert(at, INTERESTING[rng.below(INTERESTING.len())]),
+            }
+            if b.is_empty() {
+                break;
+            }
+        }
+        out.push((json!({"m":"double"}), b));
+    }
+    out.retain(|(_, b)| b.as_slice() != base);
+    out
+}
+
+/// a small manager with named variables, one unused variable, a non-identity
+/// order and a few functions; deterministic in `seed`
+fn small_session<'t, F: BoolExt>(
+    out: &'t mut TraceOut,
+    seed: u64,
+    n: u32,
+    tag: &str,
+) -> Option<(Session<'t, F>, Vec<Slot>)> {
+    let mut rng = Rng::new(seed);
+    let mut s: Session<F> = Session::new_tagged(out, 2048, 64, 1, tag);
+    s.add_vars(n);
+    let names: Vec<String> = (0..n).map(|i| format!("v{i}")).collect();
+    set_names(&mut s, &names);
+    let mut ord = rng.perm(n as usize);
+    if ord.iter().enumerate().all(|(i, &v)| i as u32 == v) && n > 1 {
+        ord.swap(0, 1);
+    }
+    s.reorder(&ord);
+    let unused = rng.below(n as usize) as u32;
+    for v in 0..n {
+        if v != unused {
+            s.var(v);
+        }
+    }
+    for _ in 0..(3 + n as usize) {
+        let live = s.live();
+        let a = live[rng.below(live.len())];
+        let b = live[live.len() - 1 - rng.below(live.len().min(3))];
+        if rng.chance(1, 6) {
+            s.not(b);
+        } else {
+            s.bin(BIN_OPS[rng.below(8)], a, b);
+        }
+        if s.dead {
+            return None;
+        }
+    }
+    let live = s.live();
+    let k = live.len();
+    let roots = vec![live[k - 1], live[k - 2], live[k - 1 - rng.below(k.min(5))]];
+    Some((s, roots))
+}
+
+fn mutate<F: BoolExt>(args: &Args)
+where
+    for<'id> INodeOfFunc<'id, F>: HasLevel,
+    for<'id> TermOfFunc<'id, F>: AsciiDisplay + ParseTagged<ETagOfFunc<'id, F>>,
+{
+    let dir = args.get("out", "/verif/out/tmp");
+    let thorough = args.get("tier", "quick") == "thorough";
+    let seed = args.num("seed", 1);
+    let mut rng = Rng::new(seed ^ 0x15ad);
+    let name = format!("dddmp-mutate-{}", F::KIND);
+    let mut out = TraceOut::new(&dir, &name, args.num("chunk", 700) as usize);
+    let mut stats = Stats::default();
+    let per_history = args.num("per_history", 150) as usize;
+    let bases = args.num("bases", if thorough { 6 } else { 2 });
+
+    let binsup = {
+        let m = F::new_manager(64, 16, 1);
+        m.with_manager_shared(|m| ExportSettings::binary_supported(m))
+    };
+    let mut modes = vec![true];
+    if binsup {
+        modes.push(false);
+    }
+    for bi in 0..bases {
+        for &ascii in &modes {
+            let n = 3 + ((bi + seed) % 3) as u32;
+            let bseed = seed * 1000 + bi * 7 + ascii as u64;
+            let set = Settings {
+                v3: bi % 2 == 0,
+                ascii,
+                strict: false,
+                dd: if bi % 2 == 0 { "d".into() } else { String::new() },
+            };
+            let rn: Option<Vec<String>> = if bi % 3 != 2 {
+                Some(vec!["f".into(), "g".into(), "h".into()])
+            } else {
+                None
+            };
+            let tag = if ascii { "mutA" } else { "mutB" };
+            // the base file
+            let mut todo: Vec<(Value, Vec<u8>)> = Vec::new();
+            let mut first = true;
+            let mut done = 0usize;
+            loop {
+                let Some((mut s, roots)) = small_session::<F>(&mut out, bseed, n, tag) else {
+                    break;
+                };
+                emit_pre(&mut s);
+                let base = do_roundtrip(&mut s, &roots, rn.as_deref(), &set, &mut stats, first);
+                if first {
+                    todo = mutations(&base, &mut rng, thorough, !ascii);
+                    first = false;
+                }
+                let upto = (done + per_history).min(todo.len());
+                for (desc, bytes) in &todo[done..upto] {
+                    let mut ev = fresh_import::<F>(bytes, true);
+                    ev["ev"] = json!("import_bad");
+                    ev["mut"] = desc.clone();
+                    ev["len"] = json!(bytes.len());
+                    stats.mutations += 1;
+                    if ev["res"] == json!("ok") {
+                        stats.accepted_mut += 1;
+                    }
+                    s.out.emit(ev);
+                }
+                done = upto;
+                if done >= todo.len() {
+                    break;
+                }
+            }
+        }
+    }
+
+    out.finish();
+    write_summary(
+        &dir,
+        &name,
+        &out,
+        json!({"rows": stats.mutations, "nontrivial": stats.accepted_mut, "exports": stats.exports}),
+    );
 }
